@@ -304,6 +304,14 @@ class Ctx:
         return 1 if self.violations else 0
 
 
+class OutOfDomain(Exception):
+    """raised by a generator / builder when the library refuses to construct a value the statement does not
+    promise to be constructible (e.g. a three-part feature with a repeated key): the case is dropped"""
+
+
+OUT_OF_DOMAIN = [0]
+
+
 def guarded(prop):
     """decorator for per-case check functions: an exception escaping from the code under test
     (rather than being judged by the check) is itself reported as a failure of that case"""
@@ -316,10 +324,18 @@ def guarded(prop):
                 return fn(*a, **k)
             except (Violation, HarnessError, KeyboardInterrupt):
                 raise
+            except OutOfDomain:
+                OUT_OF_DOMAIN[0] += 1
+                return []
             except BaseException as ex:  # noqa
                 tb = traceback.extract_tb(ex.__traceback__)
                 where = next((f'{os.path.basename(fr.filename)}:{fr.name}' for fr in reversed(tb)
-                              if '/depccg/' in fr.filename), 'harness')
+                              if '/depccg/' in fr.filename), None)
+                if where is None:
+                    # no frame of the library in the traceback: the harness tripped over itself (an attribute it
+                    # reaches for has moved, a stand-in lacks a method): that decides nothing about the property
+                    raise HarnessError(f'{prop}: {type(ex).__name__}: {ex} (raised in the harness: '
+                                       f'{tb[-1].filename}:{tb[-1].lineno})') from ex
                 return [(f'{prop}/unexpected-exception/{type(ex).__name__}@{where}',
                          f'{type(ex).__name__}: {ex}')]
         return wrapper
